@@ -448,7 +448,7 @@ def run(ctx):
                 'gcc->gcc, clang->clang, chibicc->chibicc, chibicc->gcc, gcc->chibicc; grid = 23 argument classes x 8 GP x 10 SSE register-exhaustion states; '
                 'distinct = distinct (direction-independent) signature tags / parameter-class tuples')
     ctx.assumptions += ['oracle: gcc->gcc == clang->clang logs; a direction involving chibicc must reproduce them',
-                        'aggregates containing long double, struct va_arg and stack-passed long double alignment only in dedicated probes (open findings)']
+                        'aggregates containing long double and struct va_arg take part in the random signatures since their repairs; the former open-finding probes stay as regression probes']
     sigs = gen_sigs(rng, ctx.scale(3000, 30000), False)
     per = 60
     groups = [sigs[c0:c0 + per] for c0 in range(0, len(sigs), per)]
